@@ -700,7 +700,7 @@ class HybridRenderer(FourierRenderer):
         )
 
         psf_X, psf_Y = jnp.meshgrid(
-            jnp.arange(self.psf_shape[0]), jnp.arange(self.psf_shape[1])
+            jnp.arange(self.psf_shape[1]), jnp.arange(self.psf_shape[0])
         )
         sig_x = jnp.sqrt(
             (self.pixel_PSF * (psf_X - psf_X.mean()) ** 2).sum() / self.pixel_PSF.sum()
